@@ -340,8 +340,8 @@ def run(ctx):
                     '(runtime; the theorems speak about detB^2 and the unnormalised normal)']
     ctx.assumptions += ['theorems are over exact arithmetic in a field; binary64 rounding is not modelled',
                         'RUNTIME, oracle only: convergence of the clipped Newton iteration of MappingIsoparametric.invF; sqrt/division of the '
-                        'normalisation of normals and of detDG; outward orientation of normals on non-simplex / curved cells; facet maps of '
-                        'Tet2/Hex2/prisms; positivity of detDF on a given mesh',
+                        'normalisation of normals and of detDG; outward orientation of normals on hexahedra / curved cells / non-convex quadrilaterals '
+                        '(strictly convex quadrilaterals are proved); facet maps of Hex2 and prisms; positivity of detDF on hexahedral and curved meshes',
                         'curved and multilinear cells: J = derivative of F, facet map = restriction of F, normal orthogonal to the facet are proved as polynomial identities; the x.n identity on them is oracle only',
                         'mesh.facets[:, f] lists vertices of local facet t2f[s, cell] of the adjacent cell (C11); the facet theorem '
                         'covers every ordering of every local facet']
